@@ -369,6 +369,25 @@ def index_ops(cx, rng, t, d):
             cx.V('value:tolist', f'tolist: {m}')
 
 
+def empty_axis_reductions(cx, rng, I):
+    """any() over a zero-size axis next to an axis whose pattern leaves the (truthy) default visible"""
+    import torch
+    n = rng.randint(2, 4)
+    b = rng.randint(0, 1)
+    k0, k1 = I.PhysicalAxis(0), I.PhysicalAxis(n - 1)
+    other = I.SumAxis(b, k1, 1 - b)
+    first = rng.random() < 0.5
+    vaxes = (k0, other) if first else (other, k0)
+    paxes = (k0, k1) if rng.random() < 0.5 else (k1, k0)
+    phys = torch.zeros(tuple(k._numel for k in paxes), dtype=torch.bool)
+    bt = I.PatternedTensor(phys, paxes, vaxes, True)
+    bd = torch.ones((0, n) if first else (n, 0), dtype=torch.bool)
+    for dim in (0, 1):
+        for keep in (False, True):
+            dd, kk = dim, keep
+            run_op(cx, 'any-next-to-empty-axis', lambda: bt.any(dd, keepdim=kk), lambda: bd.any(dd, keepdim=kk))
+
+
 def reductions(cx, rng, t, d, bt, bd):
     import torch
     nd = d.ndim
@@ -569,6 +588,8 @@ def run_case(tier, seed, index, spec=None):
         key = C.hkey([specs, str(dtype)])
         bt, bu = t.gt(w), u.le(w)
         bd, be = d > f, e <= f
+        if cls == 'zero-size':
+            empty_axis_reductions(cx, rng, I)
         if cls != 'nan':
             elementwise(cx, rng, t, u, d, e, ts)
         else:
